@@ -842,7 +842,8 @@ def geo_compare(ctx, w, case, look, tags):
             want.append([o["id"], t, rows[t][1], rows[t][2]])
     if not steps:
         return
-    args = {"lanelets": [{"id": l["id"], "ring": [[rat(x), rat(y)] for x, y in (l["right"] + l["left"][::-1])]} for l in case["lanelets"]],
+    args = {"lanelets": [{"id": l["id"], "left": [[rat(x), rat(y)] for x, y in l["left"]], "right": [[rat(x), rat(y)] for x, y in l["right"]]}
+                         for l in case["lanelets"]],
             "steps": steps, "trig": [[rat(a), rat(c), rat(s)] for a, (c, s) in trig.items()], "tol": rat(1e-15), "tau": rat(TWO_PI)}
     model = ctx.driver.ask("C07", "geo", args)
     if tags:
